@@ -4,7 +4,7 @@ usage: mutrun.py [tsv] [filter-substring]"""
 import subprocess, sys, os, time, fcntl
 tsv = sys.argv[1] if len(sys.argv) > 1 else '/verif/tools/mutants.tsv'
 flt = sys.argv[2] if len(sys.argv) > 2 else ''
-env = dict(os.environ, GOFLAGS='-mod=mod', GOPROXY='off', GOSUMDB='off', GOTOOLCHAIN='local')
+env = dict(os.environ, VERIF_EVIDENCE_DIR='/tmp/verif-scratch-evidence', GOFLAGS='-mod=mod', GOPROXY='off', GOSUMDB='off', GOTOOLCHAIN='local')
 for line in open(tsv):
     line = line.rstrip('\n')
     if not line or line.startswith('#'): continue
